@@ -8,6 +8,10 @@ import (
 func Decompress(a []byte) *PublicKey {
 	var aa, xx, xx3 sm2P256FieldElement
 
+	// one sign byte followed by the 32-byte x coordinate
+	if len(a) != 33 {
+		return nil
+	}
 	P256Sm2()
 	x := new(big.Int).SetBytes(a[1:])
 	curve := sm2P256
@@ -20,6 +24,10 @@ func Decompress(a []byte) *PublicKey {
 
 	y2 := sm2P256ToBig(&xx3)
 	y := new(big.Int).ModSqrt(y2, sm2P256.P)
+	if y == nil {
+		// x is not the abscissa of a point on the curve
+		return nil
+	}
 	if getLastBit(y) != uint(a[0]) {
 		y.Sub(sm2P256.P, y)
 	}
